@@ -167,6 +167,8 @@ structure GroupOut where
   left : Option Nat
   /-- `module_writer` invocations: (source handed over, destination) -/
   calls : List (Content × P)
+  /-- the group went through a user-supplied `module_writer` -/
+  viaHook : Bool := false
 
 abbrev Writer := World → Content → List Fate → Option Nat → GroupOut
 
@@ -187,7 +189,7 @@ def defaultWriter : Writer := fun w new fates budget =>
 /-- the `module_writer` branch: whatever the hook does to the file system is `eff` -/
 def hookWriter (eff : Content → FS → FS) : Writer := fun w new _ budget =>
   { fs := eff new w.fs, acts := [], status := .done, left := budget,
-    calls := if hookArgsOk then [(new, .mod)] else [] }
+    calls := if hookArgsOk then [(new, .mod)] else [], viaHook := true }
 
 /-- what `_compile` produces from the current source -/
 def newContent (w : World) (size : Nat) : Content :=
@@ -203,6 +205,8 @@ structure Plan where
   deriving Repr
 
 /-- `not os.path.exists(path) or os.stat(path)[ST_MTIME] < filemtime` -/
+/- both mtimes are whole seconds (`mtimesWholeSeconds`, regenerated; obligation `mtimes_whole_seconds`):
+   that is why `Nat` stamps are a faithful model of the comparison -/
 def needsRewrite (exists_ : Bool) (modMtime srcMtime : Nat) : Bool :=
   (missingCheck && !exists_) || (exists_ && cmpEval staleCmp modMtime srcMtime)
 
@@ -241,7 +245,7 @@ structure Out where
 
 def afterGroup (w : World) (g : GroupOut) : World :=
   { w with fs := g.fs, nextTmp := w.nextTmp + 1, stamp := w.stamp + 1,
-           pyc := if dropsBytecode then none else w.pyc }
+           pyc := if (if g.viaHook then dropsBytecodeHook else dropsBytecode) then none else w.pyc }
 
 def resOf (s : Status) : Res := if s = .died then .died else .failed
 
